@@ -785,6 +785,10 @@ func (p *Parser[V]) Parse(str string, idents Identifiers[V]) (ast AST, err error
 			SetComments(p.allowComments).
 			SetComfort(p.comfort).
 			Start()
+	// The tokenizer goroutine only terminates at the end of the input. If
+	// parsing stops early (syntax error, trailing tokens), consume the
+	// remaining tokens, otherwise the goroutine is blocked forever.
+	defer tokenizer.drain()
 
 	ast, err = p.parseLet(tokenizer, idents)
 	if err != nil {
